@@ -22,6 +22,8 @@ ITER_NEXT = ('std::iter::Iterator::next',)
 # every rule that asks "which elements" sees them in the spine.
 PASS_THROUGH = {'filter', 'inspect', 'by_ref', 'peekable', 'fuse', 'into_iter', 'iter', 'iter_mut'}
 OPTION = 'std::option::Option'
+SEARCH_PREFIX = '$search:'
+FN_CALL_DECLS = ('std::ops::Fn::call', 'std::ops::FnMut::call_mut', 'std::ops::FnOnce::call_once')
 
 
 def callee(t):
@@ -50,6 +52,7 @@ class Items:
         self.ctx = ctx
         self.opa = ctx.opa
         self._norm = {}
+        self._search = {}
 
     # ------------------------------------------------------------------ application
     def apply(self, f, args, depth=0):
@@ -57,6 +60,16 @@ class Items:
             return TOP
         if f[0] == 'set':
             return mk_set([self.apply(x, args, depth) for x in f[1]], 32)
+        if f[0] == 'closure' and f[1].startswith(SEARCH_PREFIX):
+            # the per-element step of a hand-written search loop (see search_loop): Some(payload) on the paths that return,
+            # None on the paths that go on to the next element
+            sm = self.search_loop(f[1][len(SEARCH_PREFIX):])
+            if sm is None or len(args) != 1:
+                return TOP
+            mapping = {p_: a for p_, a in zip(sm['params'], f[2])}
+            mapping[sm['elem']] = args[0]
+            got = subst_terms(sm['step'], mapping)
+            return self.normalize(self._apply_known_closures(got), depth + 1)
         if f[0] == 'closure' and f[1] in self.ctx.facts.bodies:
             r = self.opa.run(f[1], [f] + list(args))
             return self.normalize(r.ret, depth + 1)
@@ -66,6 +79,91 @@ class Items:
                 return self.normalize(r.ret, depth + 1)
             return ('call', f[1], tuple(args))
         return ('call', 'std::ops::Fn::call', (f, ('tuple', tuple(args))))
+
+    def _apply_known_closures(self, t, depth=0):
+        """after a substitution: `Fn::call(<crate closure>, (args))` is evaluated"""
+        if t is None or depth > 8:
+            return t
+        hits = {}
+        for x in subterms(t):
+            if x[0] == 'call' and sg(x[1]) in FN_CALL_DECLS and len(x[2]) == 2 and x[2][0][0] == 'closure' and x[2][1][0] == 'tuple' \
+                    and x[2][0][1] in self.ctx.facts.bodies:
+                hits[x] = self.apply(x[2][0], list(x[2][1][1]), depth + 1)
+        return subst_terms(t, hits) if hits else t
+
+    # ------------------------------------------------------------------ hand-written search loops
+    def search_loop(self, fname):
+        """Summary of a crate function that is a first-match loop over one of its iterator arguments:
+
+            for e in items { ..; if test(e) { return Some(g(e)) } }   None
+
+        i.e. `items.find_map(|e| if test(e) { Some(g(e)) } else { None })`.  Conditions (all checked on the MIR): one loop; the
+        loop pulls with Iterator::next from (the into_iter of) a parameter; no value is carried from one iteration to the next
+        (no loop phi); the exhaustion edge returns None; every return reached from the Some edge returns Some(..).
+        Result: {'iter': parameter index, 'params': parameter terms, 'elem': the element term, 'step': {Some(payload).. | None}}"""
+        if fname in self._search:
+            return self._search[fname]
+        self._search[fname] = None
+        F = self.ctx.facts
+        b = F.bodies.get(fname)
+        if b is None or b.is_closure() or 'Option<' not in (b.d.get('ret_ty') or ''):
+            return None
+        cfg = self.ctx.cfg(b)
+        loops = cfg.loops()
+        if len(loops) != 1:
+            return None
+        header, blocks = next(iter(loops.items()))
+        blocks = set(blocks) | {header}
+        r = self.opa.run(fname)
+        if r.ret is None or r.ret == TOP or any(r.recur.get(k) for k in r.recur):
+            return None
+        params = [('param', b.local_name(l) or '_%d' % l) for l in b.arg_locals()]
+        nexts = [(bb, c) for bb, c in r.call_sites() if bb in blocks and c['res'] is not None and c['res'][0] == 'call' and is_next_call(c['res'])]
+        if len(nexts) != 1:
+            return None
+        nbb, nc = nexts[0]
+        recv = nc['res'][2][0] if nc['res'][2] else None
+        while recv is not None and recv[0] in ('mut', 'ref'):
+            recv = recv[1]
+        if recv is not None and is_into_iter(recv) and recv[2]:
+            recv = recv[2][0]
+        if recv not in params:
+            return None
+        sw = [sbb for sbb, (d, tg) in r.switches.items() if d == ('discr', nc['res'])]
+        if len(sw) != 1:
+            return None
+        some_t, none_t = r.switch_target(sw[0], 1), r.switch_target(sw[0], 0)
+        if some_t == none_t:
+            return None
+        from_some = cfg.reach(some_t, avoid={header})
+        from_none = cfg.reach(none_t, avoid={header})
+        edges = [(pred, val) for (pred, rb), (val, pc) in r.ret_edges.items()] or [(bb_, val) for (bb_, val, pc) in r.returns]
+        step = []
+        for pred, val in edges:
+            for alt in alternatives(val):
+                if pred in from_some and pred not in from_none:
+                    if not (alt is not None and alt[0] == 'variant' and alt[1] == OPTION and alt[2] == 1):
+                        return None
+                    step.append(alt)
+                elif pred in from_none and pred not in from_some:
+                    if alt != none():
+                        return None
+                else:
+                    return None
+        if not step:
+            return None
+        sm = {'iter': params.index(recv), 'params': params, 'elem': ('field', nc['res'], 1, 0), 'step': mk_set(step + [none()], 32)}
+        self._search[fname] = sm
+        return sm
+
+    def search_call(self, t):
+        """a call of a search-loop function as the find_map it is, or None"""
+        if t is None or t[0] != 'call' or t[1] not in self.ctx.facts.bodies:
+            return None
+        sm = self.search_loop(t[1])
+        if sm is None or len(t[2]) != len(sm['params']):
+            return None
+        return ('call', ITER + 'find_map', (t[2][sm['iter']], ('closure', SEARCH_PREFIX + t[1], tuple(t[2]))))
 
     # ------------------------------------------------------------------ elements
     def elem(self, chain, depth=0):
@@ -180,6 +278,9 @@ class Items:
             r = ('closure', t[1], tuple(n(x) for x in t[2]))
         elif k == 'call':
             r = ('call', t[1], tuple(n(x) for x in t[2]))
+            sc = self.search_call(r) if t[1] in self.ctx.facts.bodies else None
+            if sc is not None:
+                r = sc
         elif k == 'index':
             r = ('index', n(t[1]), n(t[2]))
         elif k == 'upd':
